@@ -260,6 +260,42 @@ func genC12(h *H) {
 			h.doLine("leading-zero-key", "bip_derive "+hx(seed)+" "+pathStr(p2)+" -1 "+strings.Join(deriveOracles(seed, p2, -1), " "))
 		}
 	}
+	// directed search with plain HMAC-SHA512 (no point arithmetic, ~1 µs per candidate): hardened children of the
+	// master whose private key has TWO or more leading zero bytes (2^-16 each; 2^-24 for three in thorough)
+	{
+		seed2 := h.randBytes(32)
+		ms := h512([]byte("Bitcoin seed"), seed2)
+		kpar := new(big.Int).SetBytes(ms[:32])
+		want := 2
+		limit := uint32(400000)
+		if h.budget > 1 {
+			limit = 40000000
+		}
+		found2, found3 := 0, 0
+		data := make([]byte, 37)
+		copy(data[1:], ms[:32])
+		for i := uint32(0); i < limit && (found2 < 2 || (h.budget > 1 && found3 < 1)); i++ {
+			idx := 0x80000000 + i
+			binary.BigEndian.PutUint32(data[33:], idx)
+			I := h512(ms[32:], data)
+			c := new(big.Int).SetBytes(I[:32])
+			if c.Sign() == 0 || c.Cmp(curveN) >= 0 {
+				continue
+			}
+			c.Add(c, kpar).Mod(c, curveN)
+			lz := (256 - c.BitLen()) / 8
+			if lz >= want && (lz >= 3 || found2 < 2) {
+				if lz >= 3 {
+					found3++
+				} else {
+					found2++
+				}
+				for _, p := range [][]uint32{{idx}, {idx, 0x80000000}, {idx, 1}} {
+					h.doLine(fmt.Sprintf("leading-zeros-%d", lz), "bip_derive "+hx(seed2)+" "+pathStr(p)+" -1 "+strings.Join(deriveOracles(seed2, p, -1), " "))
+				}
+			}
+		}
+	}
 	// depth 255 refusal: a marshalled key with depth 0xff, then one more child
 	h.doLine("hardened-from-public", "bip_derive "+hx(seed)+" 2147483648 0 "+strings.Join(deriveOracles(seed, []uint32{0x80000000}, 0), " "))
 }
